@@ -47,7 +47,7 @@ class PydanticValidator(base.BaseValidator):
         signature = self.signature(method, tuple(exclude))
         schema = self.build_validation_schema(signature)
 
-        params_model = pydantic.create_model(method.__name__, **schema, model_config=self._model_config)
+        params_model = pydantic.create_model(method.__name__, **schema, __config__=self._model_config)
 
         bound_params = self.bind(signature, params)
         try:
